@@ -20,6 +20,11 @@ import (
 func TestC19_LookupAlignment(t *testing.T) {
 	projTable, projEntry, affTable, affEntry := secp256k1.VerifTableLayout()
 	if projEntry != 104 || affEntry != 64 || projTable != 15*projEntry || affTable != 15*affEntry {
+		if portableBuild {
+			// a 32-bit target lays the structs out differently; this enumeration addresses memory in 8-byte
+			// words the way the amd64 assembly does and has nothing to say about such a build
+			t.Skipf("table layout %d/%d %d/%d is not the amd64 one (portable build on another target)", projTable, projEntry, affTable, affEntry)
+		}
 		t.Fatalf("HARNESS-INCONCLUSIVE: unexpected table layout %d/%d %d/%d", projTable, projEntry, affTable, affEntry)
 	}
 	backing := make([]uint64, 4096) // 8-byte aligned words
